@@ -171,6 +171,8 @@ func cmdCheck(args []string) int {
 		runs = append(runs, r)
 	}
 	if *prop == "C10" {
+		// comparator obligations: every comparator handed to package sort is a strict weak order
+		runs = append(runs, VerifyComparators(p, *prop)...)
 		// iteration-order obligations: decided by the structural commutation rules of order.go
 		r := &funcRun{key: "order"}
 		r.enc = VerifyOrder(p, *prop)
